@@ -113,6 +113,15 @@ def _session_call(kind):
     return model
 
 
+def _silence_site(ex, frame, e, base):
+    """selected.silence(...): what it records is only taken back by the fork that follows a COMPLETED command, so it may
+    only be asked for a STORE that is going to be attempted -- never on a read-only selection, whose STORE is refused"""
+    ex.eval_args(e, frame)
+    ex.oblige(f'{ex.c.name}/call:silence/never_for_a_store_that_will_be_refused_as_read_only',
+              z3.Not(ex.st.store[base.rid]['_readonly'].t))
+    return VNone()
+
+
 REG = {
     ('Sess', 'fetch_messages'): _session_call('fetch_messages'),
     ('Sess', 'update_flags'): _session_call('update_flags'),
@@ -121,7 +130,7 @@ REG = {
     ('Sess', 'select_mailbox'): _session_call('select_mailbox'),
     ('Response', 'add_untagged'): _noop_method,
     ('Response', 'add_untagged_ok'): _noop_method,
-    ('SelectedMailbox', 'silence'): _noop_method,
+    ('SelectedMailbox', 'silence'): lambda ex, frame, e, base: _silence_site(ex, frame, e, base),
     ('Msg', 'get_flags'): _opaque('FSetV'),
     ('MsgAttrs', 'load_hook'): _opaque('Hook'),
 }
